@@ -27,11 +27,12 @@ DAMAGE = {"truncated": lambda s: s[:max(1, len(s) // 2)], "empty": lambda s: "",
 
 
 _START = [START]
+_DT = [DT]
 
 
 def factory():
     import BPTK_Py
-    m = scen.base_model(_START[0], _START[0] + 6.0, DT, name="c20")
+    m = scen.base_model(_START[0], _START[0] + 6.0 * _DT[0], _DT[0], name="c20")
     b = BPTK_Py.bptk()
     b.register_scenario_manager({"sm": {"model": m}})
     b.register_scenarios(scenario_manager="sm", scenarios={"A": {}})
@@ -125,9 +126,10 @@ def step_request(c, inst, i, kind, mode, env):
     return c.post("/%s/run-step" % inst, data=json.dumps({"settings": {"sm": {"A": {"constants": {const: v}}}}}), content_type="application/json")
 
 
-def run_case(hist, k, mode, env=None, two_instances=False, start=START):
+def run_case(hist, k, mode, env=None, two_instances=False, start=START, dt=DT):
     """-> (responses after the restart, responses of the uninterrupted run for the same steps)"""
     _START[0] = start
+    _DT[0] = dt
     from BPTK_Py.server import BptkServer
     from BPTK_Py.externalstateadapter import FileAdapter
     d = tempfile.mkdtemp(prefix="c20-", dir=os.environ.get("VCHECK_SCRATCH"))
@@ -198,10 +200,10 @@ def compare(after, ref, pc, timeout_s, numeric=False):
     return None
 
 
-def check_case(hist, k, timeout_s, start=START):
+def check_case(hist, k, timeout_s, start=START, dt=DT):
     def run():
         try:
-            return ("ok",) + run_case(hist, k, "sym", start=start)
+            return ("ok",) + run_case(hist, k, "sym", start=start, dt=dt)
         except Exception as e:
             import traceback
             return ("exc", e, traceback.format_exc()[-600:])
@@ -279,7 +281,7 @@ def replay(case):
         return (r is not None), r or "server starts and serves the intact instance"
     hist, k = case["hist"], case["k"]
     try:
-        after, ref = run_case(hist, k, "float", case.get("env", {}), start=case.get("start", START))
+        after, ref = run_case(hist, k, "float", case.get("env", {}), start=case.get("start", START), dt=case.get("dt", DT))
     except Exception as e:
         return True, "history %s crash after %d steps: raised %r" % (hist, k, e)
     r = compare(after, ref, (), 0, numeric=True)
@@ -309,7 +311,7 @@ _G = {}
 
 
 def _task(t):
-    return check_case(t[0], t[1], _G["timeout"], start=t[2])
+    return check_case(t[0], t[1], _G["timeout"], start=t[2], dt=(t[3] if len(t) > 3 else DT))
 
 
 def run(tier):
@@ -329,6 +331,9 @@ def run(tier):
     tasks = [(h, k, START) for h in histories(tier) for k in range(0, len(h) + 1)]
     # step times crossing a digit boundary (8, 9, 10, 11): string-keyed logs of a restored state sort differently
     tasks += [(h, k, 8.0) for h in histories(tier) if len(h) >= 3 for k in range(1, len(h) + 1)]
+    # fractional dt: step keys such as 0.25, 0.75, 1.25
+    tasks += [(h, k, st_, dt_) for (st_, dt_) in ((0.0, 0.25), (0.5, 0.05)) for h in histories("quick") if 2 <= len(h) <= 3 and "steps2" not in h
+              for k in range(1, len(h) + 1)][::(1 if tier == "thorough" else 2)]
     counts = {"holds": 0, "violated": 0, "unknown": 0}
     samples, bad = [], []
     try:
@@ -347,7 +352,9 @@ def run(tier):
     finally:
         stubs.restore()
     seen = set()
-    for (hist, k, st0), info in sorted(bad, key=lambda x: (len(x[0][0]), x[0][1])):
+    for t_, info in sorted(bad, key=lambda x: (len(x[0][0]), x[0][1])):
+        hist, k, st0 = t_[0], t_[1], t_[2]
+        dt0 = t_[3] if len(t_) > 3 else DT
         what = info.get("_what", "")
         if "missing" in what:
             sig = "restart:equation-missing"
@@ -363,7 +370,9 @@ def run(tier):
             continue
         seen.add(sig)
         env = {k_: float(v) for k_, v in info.items() if isinstance(v, (Fraction, int, float)) and not isinstance(v, bool)}
-        rep.candidate(sig, {"hist": hist, "k": k, "env": env, "start": st0}, "history %s from t=%s, crash after %d steps: %s" % (hist, st0, k, what))
+        if dt0 != DT and sig in ("restart:settings-before-crash-lost", "restart:value", "restart:grid"):
+            sig += ":dt=%g" % dt0
+        rep.candidate(sig, {"hist": hist, "k": k, "env": env, "start": st0, "dt": dt0}, "history %s from t=%s dt=%s, crash after %d steps: %s" % (hist, st0, dt0, k, what))
     dmg = 0
     for kind in DAMAGE:
         dmg += 1
